@@ -4,8 +4,10 @@ cd /verif
 if [ -n "$(git -C /repo status --porcelain --untracked-files=no)" ]; then echo "/repo has local changes; refusing"; exit 2; fi
 bad=0
 for p in $(python3 -c "import json; print(' '.join(c['property_id'] for c in json.load(open('MANIFEST.json'))['checks']))"); do
-  out=$(./check $p quick 2>&1); rc=$?
-  if [ $rc -ne 0 ] || echo "$out" | grep -q '^VIOLATION\|^ERROR'; then echo "$p FAILS on the unchanged tree (exit $rc)"; echo "$out" | grep -v '^  C' | head -5 | cut -c1-300; bad=1; fi
+  for tier in thorough quick; do
+    out=$(./check $p $tier 2>&1); rc=$?
+    if [ $rc -ne 0 ] || echo "$out" | grep -q '^VIOLATION\|^ERROR'; then echo "$p $tier FAILS on the unchanged tree (exit $rc)"; echo "$out" | grep -v '^  C' | head -5 | cut -c1-300; bad=1; fi
+  done
 done
 [ $bad -eq 0 ] || { echo "NOT committed"; exit 1; }
 python3 gen_manifest.py >/dev/null && python3-vt validate.py | grep -v '^evidence ok\|^manifest ok'
